@@ -693,6 +693,7 @@ impl<'de, R: Read<'de>> Parser<R> {
             Token::VecOpen(close) => {
                 self.remaining_depth -= 1;
                 if self.remaining_depth == 0 {
+                    self.remaining_depth += 1;
                     return Err(self.peek_error(ErrorCode::RecursionLimitExceeded));
                 }
 
@@ -708,6 +709,7 @@ impl<'de, R: Read<'de>> Parser<R> {
             Token::ListOpen(close) => {
                 self.remaining_depth -= 1;
                 if self.remaining_depth == 0 {
+                    self.remaining_depth += 1;
                     return Err(self.peek_error(ErrorCode::RecursionLimitExceeded));
                 }
 
@@ -778,6 +780,7 @@ impl<'de, R: Read<'de>> Parser<R> {
             Token::VecOpen(close) => {
                 self.remaining_depth -= 1;
                 if self.remaining_depth == 0 {
+                    self.remaining_depth += 1;
                     return Err(self.peek_error(ErrorCode::RecursionLimitExceeded));
                 }
 
@@ -795,6 +798,7 @@ impl<'de, R: Read<'de>> Parser<R> {
             Token::ListOpen(close) => {
                 self.remaining_depth -= 1;
                 if self.remaining_depth == 0 {
+                    self.remaining_depth += 1;
                     return Err(self.peek_error(ErrorCode::RecursionLimitExceeded));
                 }
 
